@@ -34,7 +34,7 @@ C13_Portions == T.e = "portion" =>
   /\ Check("portion variable text does not denote the same fraction as the literal (split of a total)", SplitOk(T.varsplit))
   /\ Check("a portion variable used in a split and then rendered (and split again) in ONE script does not keep its value",
            ("combometa" \in DOMAIN T) => (MetaOk(T.combometa) /\ T.combosplit.st = "ok" /\ T.combosplit.a = 2 * T.pn /\ T.combosplit.b = 2 * (T.pd - T.pn)))
-  /\ Check("the same value spelled with long numerals (25 more digits) is rejected or denotes another fraction",
+  /\ Check("the same value spelled with long numerals (1 to 40 more digits) is rejected or denotes another fraction",
            \A i \in 1..Len(T.long) : (T.long[i].litst = "ok" \/ T.long[i].litst = "unreadable-rendering") /\ T.long[i].lit = T.litmeta.txt
                                       /\ (T.long[i].varst = "ok" \/ T.long[i].varst = "unreadable-rendering") /\ T.long[i].var = T.litmeta.txt)
 C13_RoundTrip == T.e = "rt" =>
